@@ -37,13 +37,32 @@ def pprog(solver, base=0, cbase=0):
         " " + pexpr(c) for c in solver.constraints[cbase:]) + ")"
 
 
+_COMMUTATIVE = {"add", "eq", "ne", "and", "or", "iff", "xor", "alldiff"}
+_MIRROR = {"gt": "lt", "ge": "le"}
+
+
+def norm_expr(t, sort_operands=True):
+    """Semantics-preserving normal form used when comparing programs: `a > b` is written `b < a`, and the operands of
+    commutative / symmetric operators are sorted (so a rewrite that merely swaps such operands does not count as a difference)."""
+    from .core import sx
+    if not isinstance(t, list) or not t:
+        return t
+    op = t[0]
+    args = [norm_expr(x, sort_operands) for x in t[1:]]
+    if op in _MIRROR and len(args) == 2:
+        op, args = _MIRROR[op], [args[1], args[0]]
+    if sort_operands and op in _COMMUTATIVE:
+        args = sorted(args, key=sx)
+    return [op] + args
+
+
 def canon_prog(text):
-    """Sort the constraint multiset (declarations keep their order)."""
+    """Sort the constraint multiset (declarations keep their order); constraints in the normal form of norm_expr."""
     from .core import parse_sx, sx
     t = parse_sx(text)
     if not isinstance(t, list) or not t or t[0] != "prog":
         return text
-    return sx(["prog", t[1]] + sorted((sx(c) for c in t[2:])))
+    return sx(["prog", t[1]] + sorted((sx(norm_expr(c)) for c in t[2:])))
 
 
 # ---------------------------------------------------------------- evaluation of parsed s-expr trees
@@ -440,7 +459,7 @@ def alpha_canon(prog_tree, base, extra=None):
         if isinstance(t, list):
             return [walk(x) for x in t]
         return name(t) if is_aux(t) else t
-    cs2 = [walk(c) for c in cs]
+    cs2 = [norm_expr(walk(norm_expr(c, sort_operands=False))) for c in cs]
     ex2 = walk(extra) if extra is not None else None
     unused = []
     for k, d in enumerate(decls):
